@@ -166,6 +166,10 @@ fn cli(input: &str, out: &str, hyeong: &str, work: &str, jobs: usize) {
         }
         let sub = case["sub"].as_str().unwrap();
         let mut cmd = Command::new(&hyeong);
+        let verbose = case["verbose"].as_bool().unwrap_or(false);
+        if verbose {
+            cmd.arg("--verbose");
+        }
         if sub == "run" {
             cmd.args(["run", &format!("-O{}", case["level"]), "--color", "never", &file]);
         } else {
@@ -174,22 +178,35 @@ fn cli(input: &str, out: &str, hyeong: &str, work: &str, jobs: usize) {
         let (o, e, code, timed_out) = run_proc(&mut cmd, &json_bytes(&case["stdin"]), Duration::from_millis(case["timeout_ms"].as_u64().unwrap_or(3000)), 1 << 20);
         let _ = std::fs::remove_dir_all(&dir);
         let se = String::from_utf8_lossy(&e).to_string();
-        let body: Vec<u8> = if sub == "run" {
-            // leading log lines ("==> ...") are the tool's, the rest is the program's
-            let mut pos = 0usize;
-            while o[pos..].starts_with("==> ".as_bytes()) || o[pos..].starts_with("⮑".as_bytes()) {
-                match o[pos..].iter().position(|b| *b == b'\n') {
-                    Some(nl) => pos += nl + 1,
-                    None => {
-                        pos = o.len();
-                        break;
-                    }
-                }
+        // the tool's own log: the leading lines that start with "==> "; for `run` the line "running code"
+        // is the last of them and everything after it is the program's
+        let mut pos = 0usize;
+        let mut log: Vec<Value> = Vec::new();
+        while o[pos..].starts_with("==> ".as_bytes()) {
+            let end = match o[pos..].iter().position(|b| *b == b'\n') {
+                Some(nl) => pos + nl,
+                None => o.len(),
+            };
+            let line = String::from_utf8_lossy(&o[pos + 4..end]).to_string();
+            pos = (end + 1).min(o.len());
+            let rec = if let Some(p) = line.strip_prefix("parsing ") {
+                json!({"k": "parsing", "n": if p == file { 1 } else { 0 }})
+            } else if let Some(n) = line.strip_prefix("\u{2b91}  total ").and_then(|r| r.strip_suffix(" commands")).and_then(|n| n.parse::<u64>().ok()) {
+                json!({"k": "total", "n": n})
+            } else if let Some(n) = line.strip_prefix("optimizing to level ").and_then(|n| n.parse::<u64>().ok()) {
+                json!({"k": "optimizing", "n": n})
+            } else if line == "running code" {
+                json!({"k": "running", "n": 0})
+            } else {
+                json!({"k": "other", "n": 0})
+            };
+            let last = rec["k"] == "running";
+            log.push(rec);
+            if last {
+                break;
             }
-            o[pos..].to_vec()
-        } else {
-            o.clone()
-        };
+        }
+        let body: Vec<u8> = if sub == "run" { o[pos..].to_vec() } else { o.clone() };
         // a run that was cut (time-out / output cap) keeps a short, well-formed prefix of its output
         let body: Vec<u8> = if timed_out || (sub == "run" && body.len() > 6000) {
             let cut = &body[..body.len().min(3000)];
@@ -209,6 +226,8 @@ fn cli(input: &str, out: &str, hyeong: &str, work: &str, jobs: usize) {
         ev["stderr"] = json!(e.iter().take(4000).cloned().collect::<Vec<u8>>());
         ev["diag"] = json!(!e.is_empty());
         ev["panicked"] = json!(se.contains("panicked at") || se.contains("RUST_BACKTRACE"));
+        ev["log"] = json!(log);
+        ev["verbose"] = json!(verbose);
         ev["lines"] = json!(String::from_utf8_lossy(&o).lines().filter(|l| !l.starts_with("==> ")).count());
         vec![ev]
     });
